@@ -916,4 +916,116 @@ def getRowsIter : Nat → RowsState → List Nat → List Nat × Bool
       | .other => (acc.reverse, false)
       | .none => getRowsIter fuel s2 (n :: acc)
 
+/-! ## `namespaceStrictToTransitional` (lib.go): the tag-aware scanner over the bytes of a part
+
+Position arithmetic only: which bytes are copied and which attribute values are handed to the URL
+translation.  `rest` is always a suffix of the part; every index `rest[k]` and slice `rest[a:b]` the Go
+code takes is an explicit bounds test here. -/
+
+def isBlankB (c : Char) : Bool := c == ' ' || c == '\t' || c == '\n' || c == '\r'
+
+/-- `rest[k]` with an arbitrary (possibly negative) index -/
+def byteAtI (rest : List Char) (k : Int) : Option Char :=
+  if 0 ≤ k ∧ k < (rest.length : Int) then rest[k.toNat]? else none
+
+/-- the backward scan `for nameEnd > 0 && (rest[nameEnd-1] == '=' || blank) { nameEnd-- }` -/
+def nsNameEnd (rest : List Char) : Nat → Int → Outcome Int
+  | 0, e => .ok e
+  | fuel + 1, e =>
+    if e > 0 then
+      match byteAtI rest (e - 1) with
+      | none => .panic
+      | some c => if c == '=' || isBlankB c then nsNameEnd rest fuel (e - 1) else .ok e
+    else .ok e
+
+/-- the backward scan `for nameStart > 0 && rest[nameStart-1] is neither blank nor '<' { nameStart-- }` -/
+def nsNameStart (rest : List Char) : Nat → Int → Outcome Int
+  | 0, b => .ok b
+  | fuel + 1, b =>
+    if b > 0 then
+      match byteAtI rest (b - 1) with
+      | none => .panic
+      | some c => if !isBlankB c && c != '<' then nsNameStart rest fuel (b - 1) else .ok b
+    else .ok b
+
+/-- `bytes.IndexByte(l, c)` -/
+def idxOfB (c : Char) : List Char → Option Nat
+  | [] => none
+  | x :: xs => if x == c then some 0 else (idxOfB c xs).map (· + 1)
+
+inductive NsPiece where
+  /-- bytes copied unchanged -/
+  | copy (bs : List Char)
+  /-- an attribute value handed to the URL translation (`xmlns`, `xmlns:*`, `Type`) -/
+  | value (bs : List Char)
+  deriving Repr, DecidableEq
+
+def isNsName (name : List Char) : Bool :=
+  name == "xmlns".toList || name.take 6 == "xmlns:".toList || name == "Type".toList
+
+/-- the attribute loop of one start tag: `rest` begins with `<` (or, after a converted value, with its
+closing quote); `j` is the scan position.  Result: the pieces written and the bytes left after the tag. -/
+def nsTag : Nat → List Char → Nat → List NsPiece → Outcome (List NsPiece × List Char)
+  | 0, rest, _, acc => .ok (acc ++ [.copy rest], [])
+  | fuel + 1, rest, j, acc =>
+    if j < rest.length then
+      match byteAtI rest j with
+      | none => .panic
+      | some c =>
+        if c == '>' then
+          (if sliceOK rest.length 0 (j + 1) then .ok (acc ++ [.copy (rest.take (j + 1))], rest.drop (j + 1)) else .panic)
+        else if c != '"' && c != '\'' then nsTag fuel rest (j + 1) acc
+        else
+          (nsNameEnd rest (j + 1) j).bind fun nameEnd =>
+          (nsNameStart rest (j + 1) nameEnd).bind fun nameStart =>
+            if ¬ (0 ≤ nameStart ∧ nameStart ≤ nameEnd ∧ nameEnd ≤ (rest.length : Int)) then .panic   -- rest[nameStart:nameEnd]
+            else if ¬ sliceOK rest.length (j + 1) rest.length then .panic                              -- rest[j+1:]
+            else
+              match idxOfB c (rest.drop (j + 1)) with
+              | none => .ok (acc ++ [.copy rest], [])
+              | some closing =>
+                let valueStart := j + 1
+                let valueEnd := j + 1 + closing
+                if isNsName ((rest.drop nameStart.toNat).take (nameEnd - nameStart).toNat) then
+                  if ¬ (sliceOK rest.length 0 valueStart ∧ sliceOK rest.length valueStart valueEnd) then .panic
+                  else nsTag fuel (rest.drop valueEnd) 1
+                         (acc ++ [.copy (rest.take valueStart), .value ((rest.drop valueStart).take (valueEnd - valueStart))])
+                else nsTag fuel rest (valueEnd + 1) acc
+    else .ok (acc ++ [.copy rest], [])
+
+def hasPrefixB (p : String) (l : List Char) : Bool := l.take p.length == p.toList
+
+/-- `bytes.Index(l, pat)` -/
+def idxOfSub (pat : List Char) : Nat → List Char → Option Nat
+  | _, [] => none
+  | k, x :: xs => if (x :: xs).take pat.length == pat then some k else idxOfSub pat (k + 1) xs
+
+/-- the outer loop over the part -/
+def nsScan : Nat → List Char → List NsPiece → Outcome (List NsPiece)
+  | 0, content, acc => .ok (acc ++ [.copy content])
+  | fuel + 1, content, acc =>
+    match idxOfB '<' content with
+    | none => .ok (acc ++ [.copy content])
+    | some lt =>
+      if ¬ sliceOK content.length 0 lt then .panic
+      else
+        let rest := content.drop lt
+        let acc1 := acc ++ [.copy (content.take lt)]
+        let skipTo : Option (Option Nat) :=
+          if hasPrefixB "<!--" rest then some ((idxOfSub "-->".toList 0 rest).map (· + 3))
+          else if hasPrefixB "<![CDATA[" rest then some ((idxOfSub "]]>".toList 0 rest).map (· + 3))
+          else if hasPrefixB "<?" rest then some ((idxOfSub "?>".toList 0 rest).map (· + 2))
+          else if hasPrefixB "</" rest || hasPrefixB "<!" rest then some ((idxOfB '>' rest).map (· + 1))
+          else none
+        match skipTo with
+        | some none => .ok (acc1 ++ [.copy rest])
+        | some (some e) =>
+          if ¬ sliceOK rest.length 0 e then .panic else nsScan fuel (rest.drop e) (acc1 ++ [.copy (rest.take e)])
+        | none =>
+          (nsTag (rest.length + 1) rest 1 acc1).bind fun (acc2, left) =>
+            if left.isEmpty then .ok acc2 else nsScan fuel left acc2
+
+/-- `namespaceStrictToTransitional` on a part that mentions a Strict URL -/
+def nsStrict (content : List Char) : Outcome (List NsPiece) := nsScan (content.length + 1) content []
+
 end XlModel.Decode
